@@ -66,6 +66,8 @@ class SceneSpec:
     categories: Optional[List[str]] = None
     attributes: Optional[List[str]] = None
     pointclouds: Optional[List[np.ndarray]] = None  # per sample (N,4) arrays written as .pcd.bin
+    raw_files: bool = False  # also write a (tiny) raw file for every non-lidar sensor, so that load_raw_data=True works
+    sensor_ego_offset: Optional[Tuple[float, float, float]] = None  # non-lidar sensors captured at a slightly other ego pose
 
 
 def tok(kind: str, i: Any) -> str:
@@ -153,11 +155,21 @@ def write_dataset(root: str, spec: SceneSpec, tables: Optional[Dict[str, list]] 
         ego_pose.append({"token": tok("ego", k), "timestamp": int(s.t), "rotation": list(s.eq()), "translation": list(s.ego_pos)})
         for ch, mod, _, _ in sensors:
             fname = f"data/{ch}/{k}.pcd.bin" if mod == "lidar" else f"data/{ch}/{k}.jpg"
+            ego_tok = tok("ego", k)
+            if mod != "lidar" and spec.sensor_ego_offset is not None:
+                # every sensor record refers to the ego pose at ITS capture time (nuScenes style)
+                ego_tok = tok(f"ego-{ch}", k)
+                ego_pose.append({"token": ego_tok, "timestamp": int(s.t), "rotation": list(s.eq()), "translation": [float(a + b) for a, b in zip(s.ego_pos, spec.sensor_ego_offset)]})
+            if mod != "lidar" and spec.raw_files:
+                from PIL import Image
+
+                os.makedirs(os.path.join(root, "data", ch), exist_ok=True)
+                Image.new("RGB", (4, 3), (k % 255, 0, 0)).save(os.path.join(root, fname))
             sample_data.append(
                 {
                     "token": tok(f"sd-{ch}", k),
                     "sample_token": tok("sample", k),
-                    "ego_pose_token": tok("ego", k),
+                    "ego_pose_token": ego_tok,
                     "calibrated_sensor_token": tok("cs", ch),
                     "timestamp": int(s.t),
                     "fileformat": "pcd" if mod == "lidar" else "jpg",
@@ -169,6 +181,8 @@ def write_dataset(root: str, spec: SceneSpec, tables: Optional[Dict[str, list]] 
                     "next": tok(f"sd-{ch}", k + 1) if k < n - 1 else "",
                 }
             )
+        if spec.pointclouds is None and spec.raw_files:
+            np.zeros((3, 5), dtype=np.float32).tofile(os.path.join(root, "data", spec.lidar_channel, f"{k}.pcd.bin"))
         if spec.pointclouds is not None:
             pc = np.asarray(spec.pointclouds[k], dtype=np.float32)
             full = np.zeros((pc.shape[0], 5), dtype=np.float32)
